@@ -39,6 +39,29 @@ def lib_population(fb):
     return panics.population(fb, R)
 
 
+def _amount_positive(w, org, name, weak):
+    """every assignment of the local `name` is a constant >= 1 or an amount a nested walker returned"""
+    li = org.local_by_name(name)
+    if li is None:
+        return False
+    n = 0
+    for bi, si, st in mir.iter_stmts(w, mir.normal_blocks(w)):
+        if st["k"] == "assign" and st["place"]["local"] == li and not st["place"]["proj"]:
+            term = org.expand_named(org.rv_term(st["rv"]))
+            lin = dom.linear(dom.parse_term(term))
+            if lin is not None and set(lin) == {"1"} and lin["1"] >= 1:
+                n += 1
+            elif "make_expression" in term or "process_unary" in term:
+                n += 1
+                weak.append(term[:80])
+            else:
+                return False
+    for bi, t in mir.calls(w):
+        if t["dest"]["local"] == li and not t["dest"]["proj"]:
+            return False
+    return n > 0
+
+
 def run(ctx):
     chk, fb = ctx.check, ctx.fb
     chk.rule("R06.1", "every may-panic site reachable from a public entry point belongs to an audited class; no class has more sites than audited")
@@ -147,12 +170,17 @@ def run(ctx):
                     term = org.op_term(t["discr"])
                     m = re.match(r"^Lt\(var:(\S+), core::slice::<impl \[T\]>::len\(param:\w+\)\)$", term)
                     if m and h in mir.dominators(w).get(b, ()):
-                        cond_b = (b, m.group(1))
+                        cond_b = (b, m.group(1), (True,))
+                        break
+                    # `while let Some(token) = tokens.get(idx)`
+                    m = re.match(r"^discr\(core::slice::<impl \[T\]>::get\(param:\w+, var:([^\s,()]+)\)\)$", term)
+                    if m and h in mir.dominators(w).get(b, ()):
+                        cond_b = (b, m.group(1), (1, "1", "Some"))
                         break
             if cond_b is None:
                 continue
             found = True
-            b, ivar = cond_b
+            b, ivar, stay = cond_b
             li = org.local_by_name(ivar)
             inc_blocks = set()
             weak = []
@@ -168,11 +196,14 @@ def run(ctx):
                         continue
                     if const >= 1:
                         inc_blocks.add(bi)
+                    elif rest and const == 0 and len(rest) == 1 and list(rest.values()) == [1] and list(rest)[0].startswith("var:") and _amount_positive(w, org, list(rest)[0][4:], weak):
+                        # advance by an amount chosen per arm (`let n = match .. { .. => 1, .. => consumed }; idx += n`): every choice is >= 1
+                        inc_blocks.add(bi)
                     elif rest and all(("make_expression" in k or "process_unary" in k) for k in rest):
                         # advance by the number of tokens a nested walker consumed (crate-local, returns its own advanced index)
                         inc_blocks.add(bi)
                         weak.append(list(rest)[0][:80])
-            body_entry = [tgt for (lab, tgt) in dom.switch_edges(w, b) if lab is True]
+            body_entry = [tgt for (lab, tgt) in dom.switch_edges(w, b) if (lab is True and True in stay) or (lab is not True and lab is not False and lab in stay)]
             ok = bool(body_entry) and h not in mir.reach_from(w, body_entry[0], avoid=inc_blocks)
             nw += 1
             if ok:
